@@ -8,7 +8,7 @@ from harness.props import c03 as _c03
 
 PROP = 'C07'
 LEAN_MODULES = ['Glom.Props.C07']
-FACT_FILES = ['ExcFacts']
+FACT_FILES = ['ExcFacts', 'InterpFacts', 'c03']
 READY = True
 RULE = ('spec trees of depth <= 3 (quick) / 4 (thorough) mixing tuple, Pipe, dict, list, Coalesce, And/Or/Not, Switch, '
         'Match-dict and call arguments, with binders (S(k=..) with literal / T / Spec / container values, A.k, '
@@ -33,11 +33,31 @@ RULE = ('spec trees of depth <= 3 (quick) / 4 (thorough) mixing tuple, Pipe, dic
         'every shape that contains chains in every tuple / Pipe spelling of each chain (all 2^n combinations for '
         'n <= 3 chains), plus 13 nested-chain shapes (inner binding read by the enclosing chain, shadowing ends '
         'with the inner chain, two levels, STOP / SKIP inside the inner chain, sibling inner chains); '
+        '85% of the cases have every reader S.name wrapped in a READ PROBE (a custom spec with a glomit that evaluates the reader with the '
+        'running evaluator and records what it yielded, unique id per position): the independent checker checkVis compares every recorded '
+        'read with the statically (lexically) visible binding computed from the spec tree alone; 7% are nested evaluations started from the '
+        'running scope (glom(t, s, scope=scope) / Spec(s).glom(t, scope=scope), as First and Iter().first do) with the name bound at 2-4 '
+        'depths; 8% pass a layered ChainMap as scope= with a name in two or three layers; 2% are Match dicts mixing Optional / Required / '
+        'literal keys with one binder key and S-reading values, evaluated for EVERY order of the target\'s items; 25% of the readers carry '
+        'further T steps (S.k[0], S.k + 1); enumerated + 2%: a mutable default of Vars (list / dict / dict holding a list, keyword or base '
+        'mapping) mutated in place by 1-3 later steps, the same spec object evaluated for 2-3 targets (known finding '
+        'vars_mutable_default_persists); the caller mapping is compared with a DEEP copy taken before the call; '
         'every call is made twice. Observed: result (hence what '
         'every reader saw), ordered call log, the caller mapping before/after, equality of the two calls. non-trivial = '
         'at least one binder and one reader; distinct = distinct (target, spec, scope)')
 TRUSTED = ['Python primitives are parameters (`Prims`), validated by the correspondence only']
-ASSUMPTIONS = ['a lazily evaluated stream (Iter(sub) / Iter().map(sub)) is modelled by evaluating its items in the scope of the '
+ASSUMPTIONS = ['READING (C07-1, C07-2): Spec(s, scope={...}), Let(k=...) and a Ref(name, body) definition are binders of the chain they are a step '
+               'of, exactly like S(name=...): glom(1, (Spec(T, scope={"k": 3}), S.k)) == 3 and glom(1, (Ref("r", Val("body")), Ref("r"))) '
+               'resolves from the preceding sibling step (exportsOf in Glom/Spec/C07.lean says so; the static checker demands it)',
+               'READING (C07-4b/c): "the caller\'s scope mapping is never modified" is about the mapping -- which names it has and which '
+               'objects they are bound to (compared with a deep copy for every generated case); a spec that assigns INTO an object the caller '
+               'put there (A.x["y"] on scope={"x": {}}, A.globals.k with a caller-supplied "globals") mutates a user object like an assignment '
+               'into the target does: C11\'s domain, not generated here',
+               'mutable Vars defaults persisting into the next call of the same spec object: GENUINE, known finding vars_mutable_default_persists',
+               'Optional(k, default=...) keys are a separately checked observation (optdefault cases); Optional(k) / Required(k) keys are '
+               'constructs of the model (a Match dict is generated with at most one Required key of a shape: the model tells key objects '
+               'apart by their shape, glom by identity)',
+               'a lazily evaluated stream (Iter(sub) / Iter().map(sub)) is modelled by evaluating its items in the scope of the '
                'place where it is written (the frame the generator captures), the consumer forcing it: exact for bindings '
                '(enumerated placements), not for S.globals / Vars written between creation and consumption; the other Iter '
                'stages are C17',
@@ -62,6 +82,11 @@ MANIFEST = dict(
           "fresh globals. The scope-generic interpreter model is tied to /repo by differential execution of (target, spec, "
           "scope) cases (result, call log, caller mapping before/after, two consecutive calls) through the compiled Lean "
           "driver."),
+    checker=("holds = checkVis (independent, from the property text: every recorded read is the value of the lexically nearest visible binding "
+             "-- later step of the same chain and everything nested; not the enclosing spec, not siblings; a Switch / Match-dict key to its own "
+             "value only; Spec(scope=) for its subtree; the caller mapping outermost -- or PathAccessError; c07_model_checks proves it of the "
+             "model on the fragment vfragF) AND equality with the lexical reference interpreter AND caller mapping untouched (deep) AND two "
+             "consecutive calls alike"),
     note=("trusted: Lean kernel + {propext, Classical.choice, Quot.sound}; harness/driver; Python primitives as Prims "
           "parameters; hand-written interpreter model validated by the correspondence on every run. The theorems "
           "characterise the model's scoping law by law; that the real interpreter writes only the head frame is "
@@ -367,16 +392,142 @@ def run_optdefault(case):
     return out
 
 
+# ---------------------------------------------------------------- mutable Vars defaults (C07-4a)
+VARSMUT_DEFAULTS = {
+    'list': [[], [0], ['a', 'b']],
+    'dict': [{}, {'k': 0}, {'z': 1}],
+    'inner': [{'inner': []}, {'inner': [7], 'k': 1}],
+}
+VARSMUT_OPS = {'list': ['append', 'extend', 'insert0', 'clear'], 'dict': ['setitem', 'clear'],
+               'inner': ['append_inner', 'setitem']}
+
+
+def _mutator(op):
+    """a plain callable mutating its first argument in place (returns the target, so a chain goes on)"""
+    def f(c, t):
+        if op == 'append':
+            c.append(t)
+        elif op == 'extend':
+            c.extend([t, t])
+        elif op == 'insert0':
+            c.insert(0, t)
+        elif op == 'clear':
+            c.clear()
+        elif op == 'setitem':
+            c['k'] = t
+        elif op == 'append_inner':
+            c['inner'].append(t)
+        else:
+            raise ValueError(op)
+        return t
+    f.__name__ = 'mut_' + op
+    return f
+
+
+def varsmut_cases():
+    """enumerated: every kind of mutable default (list / dict / dict holding a list; empty and not) given
+    as a keyword default or through the positional base mapping, mutated in place by 1-2 later steps of
+    the same chain (tuple and Pipe), read back by S.v.<name>; the same spec object is evaluated for two
+    or three targets.  "never into the next call": each call starts from the default as written."""
+    for kind, dflts in VARSMUT_DEFAULTS.items():
+        for d in dflts:
+            for via in ('kw', 'base'):
+                for ops in [[o] for o in VARSMUT_OPS[kind]] + [VARSMUT_OPS[kind][:2]]:
+                    for chain in ('tuple', 'pipe'):
+                        yield {'kind': 'varsmut', 'name': 'l', 'via': via, 'dflt': ic.enc(d), 'muts': ops,
+                               'chain': chain, 'targets': [ic.enc(1), ic.enc('t2'), ic.enc(1)][:2 + (len(ops) % 2)]}
+
+
+def gen_varsmut(rng):
+    kind = rng.choice(list(VARSMUT_DEFAULTS))
+    return {'kind': 'varsmut', 'name': rng.choice(['l', 'acc']), 'via': rng.choice(['kw', 'base']),
+            'dflt': ic.enc(rng.choice(VARSMUT_DEFAULTS[kind])),
+            'muts': [rng.choice(VARSMUT_OPS[kind]) for _ in range(rng.randint(1, 3))],
+            'chain': rng.choice(['tuple', 'pipe']),
+            'targets': [ic.enc(rng.choice([0, 1, 'x', None, [1]])) for _ in range(rng.randint(2, 3))]}
+
+
+def run_varsmut(case):
+    import glom
+    from glom import S, T
+    fns = {}
+    d = ic.dec(case['dflt'], fns)
+    name = case['name']
+    v = glom.Vars(**{name: d}) if case['via'] == 'kw' else glom.Vars({name: d})
+    rd = getattr(S.v, name)
+    steps = [S(v=v)] + [glom.Call(_mutator(op), args=(rd, T)) for op in case['muts']] + [rd]
+    spec = tuple(steps) if case['chain'] == 'tuple' else glom.Pipe(*steps)
+    obs = []
+    for tj in case['targets']:
+        try:
+            res = glom.glom(ic.dec(tj, fns), spec)
+        except Exception as e:
+            obs.append({'err': ic.exc_name(e)})
+        else:
+            try:
+                obs.append({'ok': ic.enc(res)})
+            except ValueError as ve:
+                obs.append({'err': 'Unencodable:' + str(ve)[:80]})
+    out = dict(case)
+    out['impl'] = obs
+    return out
+
+
+def classify(case, verdict):
+    """a known defect is named only when the implementation behaves exactly as the model of the code as it is"""
+    return verdict.get('known_shape') or None
+
+
+def wrap_readers(j, ctr):
+    """every scope reader S.name / S['name'] (not where it stands as a dict key: a key is computed only if it is a
+    T or Spec object) is wrapped in a read probe with a unique id: the harness records what each reader yielded"""
+    if isinstance(j, dict):
+        if j.get('k') == 'sRead':
+            ctr[0] += 1
+            return {'k': 'rprobe', 'id': ctr[0], 's': j}
+        out = {}
+        for key_, v in j.items():
+            if key_ == 'es' and j.get('k') in ('dict', 'odict'):
+                out[key_] = [[kv[0] if kv[0].get('k') == 'sRead' else wrap_readers(kv[0], ctr), wrap_readers(kv[1], ctr)]
+                             for kv in v]
+            else:
+                out[key_] = wrap_readers(v, ctr)
+        return out
+    if isinstance(j, list):
+        return [wrap_readers(x, ctr) for x in j]
+    return j
+
+
+def with_read_probes(cases, rng):
+    for c in cases:
+        if 'spec' in c and rng.random() < 0.85:
+            c = dict(c)
+            c['spec'] = wrap_readers(c['spec'], [0])
+        yield c
+
+
 def generate(rng, tier, scale, **focus):
+    yield from with_read_probes(generate0(rng, tier, scale, **focus), rng)
+
+
+def generate0(rng, tier, scale, **focus):
     if not focus:
         yield from placements()
+        yield from varsmut_cases()
     n = (1500 if tier == 'quick' else 30000) * scale
     for i in range(n):
         if rng.random() < 0.04:
             yield gen_optdefault(rng)
             continue
+        if rng.random() < 0.02:
+            yield gen_varsmut(rng)
+            continue
+        if rng.random() < 0.02:
+            # Match dicts mixing Optional / Required / literal keys with a binder key, every order of the target's items
+            yield from Gen(rng, {'scope': True}).matchopt_cases()
+            continue
         g = Gen(rng, {'extra': ['bindchain', 'bindchain', 'bindchain', 'reader', 'reader', 'binder', 'and', 'not',
-                                'switch', 'matchdict', 'ref', 'skipchain', 'nestbind', 'inspect'], 'scope': True})
+                                'switch', 'matchdict', 'ref', 'skipchain', 'nestbind', 'inspect', 'reenter'], 'scope': True})
         t = g.target()
         depth = rng.choice([1, 2, 2, 3]) if tier == 'quick' else rng.choice([2, 3, 3, 4])
         spec = g.spec(t, depth)
@@ -389,14 +540,26 @@ def generate(rng, tier, scale, **focus):
         elif q < 0.55:
             # binder, step(s) evaluating to SKIP (or STOP), readers
             spec = g.s_skipchain(t, depth)
-        elif q < 0.63:
+        elif q < 0.62:
+            # a reader inside a nested evaluation started from the running scope, the name bound at several depths
+            spec = g.s_reenter(t, depth)
+        elif q < 0.70:
             # chains nested directly in chains (tuple / Pipe in every combination), binder at a random level
             spec = g.s_nestbind(t, depth)
         scope = []
         if rng.random() < 0.4:
             for name in rng.sample(g.POOL, rng.randint(1, 2)):
-                scope.append([name, ic.enc(rng.choice([1, 'cs', None, [1, 2]]))])
-        yield {'spec': gate_inspect(spec), 'target': ic.enc(t), 'scope': scope}
+                scope.append([name, ic.enc(rng.choice([1, 'cs', None, [1, 2], {'a': 3}, [[0], 5]]))])
+        case = {'spec': gate_inspect(spec), 'target': ic.enc(t), 'scope': scope}
+        if rng.random() < 0.08:
+            # the caller hands a LAYERED mapping (collections.ChainMap) with a name in two layers: the first layer wins
+            dup = rng.choice(g.POOL)
+            case['scope'] = []
+            case['scope_layers'] = [[[dup, ic.enc('layer0')]] + ([[rng.choice(g.POOL), ic.enc(0)]] if rng.random() < 0.3 else []),
+                                    [[dup, ic.enc('layer1')], [rng.choice(g.POOL), ic.enc('only-outer')]]]
+            if rng.random() < 0.3:
+                case['scope_layers'].append([[dup, ic.enc('layer2')]])
+        yield case
 
 
 def corpus():
@@ -414,6 +577,8 @@ def run_impl(case):
     base = {k: v for k, v in case.items() if not k.startswith('impl')}
     if base.get('kind') == 'optdefault':
         return run_optdefault(base)
+    if base.get('kind') == 'varsmut':
+        return run_varsmut(base)
     first = ic.run_glom(base)
     built = first.pop('_built')
     second = ic.run_glom(base, built=built)     # the same spec object, a second top-level call
@@ -423,12 +588,24 @@ def run_impl(case):
 
 
 def key(case):
+    if case.get('kind') == 'varsmut':
+        return {k: case[k] for k in ('kind', 'name', 'via', 'dflt', 'muts', 'chain', 'targets')}
     if case.get('kind') == 'optdefault':
         return {k: case[k] for k in ('kind', 'target', 'lits', 'binder', 'dflt', 'optkey', 'scope')}
     return _c03.key(case)
 
 
 def shrink(case):
+    if case.get('kind') == 'varsmut':
+        base = {k: v for k, v in case.items() if not k.startswith('impl')}
+        if len(base['muts']) > 1:
+            for i in range(len(base['muts'])):
+                c = dict(base); c['muts'] = base['muts'][:i] + base['muts'][i + 1:]
+                yield c
+        if len(base['targets']) > 2:
+            c = dict(base); c['targets'] = base['targets'][:2]
+            yield c
+        return
     if case.get('kind') == 'optdefault':
         base = {k: v for k, v in case.items() if not k.startswith('impl')}
         if base['lits']:
@@ -448,11 +625,11 @@ def shrink(case):
 
 
 BINDERS = ('sBind', 'aBind', 'aGlob', 'aVar', 'let', 'specW', 'ref', 'vars')
-READERS = ('sRead', 'sGlobRead', 'sVarRead')
+READERS = ('sRead', 'sGlobRead', 'sVarRead', 'rprobe')
 
 
 def nontrivial(case, verdict):
-    if case.get('kind') == 'optdefault':
+    if case.get('kind') in ('optdefault', 'varsmut'):
         return True
     s = json.dumps(case['spec'])
     return any(('"k": "%s"' % b) in s for b in BINDERS) and any(('"k": "%s"' % r) in s for r in READERS)
